@@ -24,7 +24,7 @@ REQUIRED = ["C17_engines_covered", "C17_zero_outside", "C17_access_overloads_agr
             "C17_stored_injective", "C17_mirror", "C17_row_range", "C17_row_range_covers", "C17_transpose_engine",
             "C17_read", "C17_read_mirror", "C17_write_hits_one", "C17_lvalue", "C17_transpose_view",
             "C17_rhs_traversal", "C17_expression_rows", "C17_to_dense", "C17_assign_raw", "C17_assign_view",
-            "C17_diag_vector", "C17_submatrix"]
+            "C17_diag_vector", "C17_submatrix", "C17_diag_matrix_view"]
 
 BANDS = [(0, 0), (1, 1), (2, 2), (0, 2), (3, 1), (4, 4), (2, 0), (1, 3)]
 ENGINES = ([("SquareEngine_ROW_MAJOR", 0, 0), ("SquareEngine_COL_MAJOR", 0, 0),
@@ -86,6 +86,8 @@ def ops_for(e, L, U, n, lvalue, rng, full_sub=True):
         pairs = keep + rest[:40]
     for (a, b) in pairs:
         out.append("sub %s %d %d" % (pre, a, b))
+    if (e, L, U) == ("BandEngine_ROW_MAJOR", 0, 0):
+        out += ["dmat %s %d" % (pre, s) for s in (1, 2, 3, 5)]
     return out
 
 
@@ -140,6 +142,14 @@ class Judge:
                 self.size = int(f["size"])
                 if f["contiguous"] != "1":
                     return "a freshly constructed matrix reports is_contiguous() == false"
+                return None
+            if op == "dmat":
+                st = int(args[0])
+                want = [(i * st + 1 if i == j else 0) for i in range(n) for j in range(n)]
+                f = fields(out)
+                for k, what in (("get", "v.diag_matrix()(i,j)"), ("conv", "Matrix(v.diag_matrix())"), ("convT", "Matrix(v.diag_matrix().T())")):
+                    if ints(f[k]) != want:
+                        return "%s is not diag(v) for the stride-%d view v" % (what, st)
                 return None
             if op == "get":
                 D = ints(out)
@@ -320,6 +330,10 @@ def run_lines(ctx, exe, lines, model_ok, label="main"):
         if msg is not None:
             nbad += 1
             ctx.cov["oracle_failures"] = ctx.cov.get("oracle_failures", 0) + 1
+            sig = signature(e, L, U, op)
+            if sig in ctx.seen_sigs:      # one report per (engine, operation); sizes are visited in increasing order
+                continue
+            ctx.seen_sigs.add(sig)
             ctx.violation("%s [%s]" % (msg, line),
                           {"kind": "oracle", "ops": ["info %s %d %d %d" % (e, L, U, n), "get %s %d %d %d" % (e, L, U, n), line],
                            "impl": out, "model": (model[k] if model and k < len(model) else None), "message": msg,
@@ -345,6 +359,7 @@ def caps(exe):
 
 def run(ctx, replay):
     ctx.pending = []
+    ctx.seen_sigs = set()
     fails = []
     # 1 translate
     gen_ok = True
@@ -390,7 +405,7 @@ def run(ctx, replay):
                        "orders) x n = 1..%d x {info, get, ptr, dense, fromdense s/a, scalar, T, expr, exprT, assign, assignT} + write at "
                        "EVERY (i,j) (active lvalue; passive too where it compiles) + diag_vector(k) for every k + write through every "
                        "diag_vector element + submatrix_on_diagonal(a,b) for every pair in -1..n (n > 12: edges + 40 random pairs); "
-                       "each result compared with the model (exact text) and judged by the dense-equivalent oracle; "
+                       "+ v.diag_matrix() for strides 1,2,3,5; each result compared with the model (exact text) and judged by the dense-equivalent oracle; "
                        "non-trivial = n >= 2; distinct = different op line" % nmax)
     ctx.cov["exhaustive"] = True
     ctx.cov["exhaustive_domain"] = "all (i,j), all k, all (a,b) for the listed engines and sizes"
